@@ -65,7 +65,7 @@ ASSUMPTIONS = ['IEEE double arithmetic and numpy comparison are the '
                'other than the requested out-of-bounds rejection is counted, '
                'not judged (R3)']
 BUDGET = {'quick': dict(examples=12800, max_s=200),
-          'thorough': dict(examples=160000, max_s=2400)}
+          'thorough': dict(examples=600000, max_s=2400)}
 
 Q = 0.25   # coordinate quantum
 
